@@ -141,7 +141,25 @@ fn main() {
     let root = gitx::scratch_root();
     let _ = std::fs::remove_dir_all(&root);
     std::fs::create_dir_all(&root).unwrap_or_else(|e| machinery_error(&format!("scratch: {e}")));
-    if ctx.replay_case().is_some() { eprintln!("note: C02 replay re-runs the quick exploration (states are rebuilt from the model)"); }
+    if let Some(case) = ctx.replay_case() {
+        // rebuild exactly the recorded repository state and judge it alone
+        let ops: Vec<String> = case["ops"].as_array().map(|v| v.iter().filter_map(|x| x.as_str().map(String::from)).collect()).unwrap_or_default();
+        let shape = gitx::shape_from_ops(&ops).unwrap_or_else(|e| machinery_error(&format!("replay: {e}")));
+        let dates: Vec<i64> = case["dates"].as_array().map(|v| v.iter().filter_map(|x| x.as_i64()).collect()).unwrap_or_else(|| gitx::dates(shape.parents.len(), DateMode::Increasing));
+        let tags: Vec<Tag> = case["tags"].as_array().map(|v| v.iter().map(|t| Tag { name: t["name"].as_str().unwrap_or("").to_string(), target: t["commit"].as_u64().unwrap_or(0) as usize, annotated: t["annotated"].as_bool().unwrap_or(false) }).collect()).unwrap_or_default();
+        let hs = case["head"].as_str().unwrap_or("");
+        let head = if let Some(r) = hs.strip_prefix("Detached(") { Head::Detached(r.trim_end_matches(')').parse().unwrap_or(0)) } else { Head::Branch(hs.trim_start_matches("Branch(\"").trim_end_matches("\")").to_string()) };
+        let wt = WorkTree::ALL.into_iter().find(|w| format!("{w:?}") == case["worktree"].as_str().unwrap_or("Clean")).unwrap_or(WorkTree::Clean);
+        let mut repo = Repo::create(&root, "replay", &shape, &dates);
+        repo.set_tags(&tags); repo.set_head(&head); repo.set_worktree(wt, "f0");
+        let mut st = Stats::default();
+        let sr = StateRef { shape: &shape, tags: &tags, head: &head, wt, repo: &repo, label: format!("replay ops {ops:?} tags {:?} head {head:?} worktree {wt:?}", tags.iter().map(|t| format!("{}@{}", t.name, t.target)).collect::<Vec<_>>()) };
+        judge(&ctx, &sr, case["input_format"].as_str().unwrap_or("auto"), &mut st);
+        println!("replayed 1 repository state ({} git evaluations)", st.get("evaluations"));
+        repo.remove();
+        let _ = std::fs::remove_dir_all(&root);
+        finish(&ctx, Coverage::default());
+    }
 
     // layer A: shapes
     let (nc, nb) = if quick { (4, 1) } else { (4, 2) };
